@@ -224,6 +224,7 @@ def run(case):
     # reference: the same operations on data * unit with astropy / numpy
     ref, ref_err, ref_at = src_q, None, None
     cur, impl_err, impl_at = cube, None, None
+    nonfinite = False
     for k, o in enumerate(case["ops"]):
         if ref_err is None:
             try:
@@ -246,6 +247,8 @@ def run(case):
         if impl_err is None:
             try:
                 cur = apply(cur, o, case, True)
+                if o["op"] in ("pow", "rdiv", "div") and not np.all(np.isfinite(np.asarray(C.materialize(cur.data), dtype=float))):
+                    nonfinite = True       # a division by zero on the way: numpy's inf, outside the rational model
             except Exception as e:
                 impl_err, impl_at = err_kind(e), k
         if ref_err or impl_err:
@@ -266,7 +269,13 @@ def run(case):
             got = quantity_of(cur)
             try:
                 gv = got.to_value(ref.unit)
-                if gv.shape != ref.shape or not np.allclose(gv, ref.value, rtol=1e-12, atol=0, equal_nan=True):
+                rv = ref.value
+                if gv.shape == ref.shape and nonfinite:
+                    # after a division by zero the sign of an infinity depends on the sign of the zero, which integer
+                    # data do not have and which -(a - b) and (b - a) give differently: infinite where the reference is
+                    both_inf = np.isinf(gv) & np.isinf(rv)
+                    gv, rv = np.where(both_inf, np.inf, gv), np.where(both_inf, np.inf, rv)
+                if gv.shape != ref.shape or not np.allclose(gv, rv, rtol=1e-12, atol=0, equal_nan=True):
                     fails.append(f"physical values {got.ravel()[:4]} differ from the same operation on data*unit {ref.ravel()[:4]}")
             except u.UnitsError:
                 fails.append(f"result unit {cur.unit} is not equivalent to {ref.unit}")
@@ -344,8 +353,7 @@ def run(case):
             return float(o["exp"]).is_integer()
         return o["op"] in ("add", "radd", "sub", "rsub", "mul", "rmul", "div", "rdiv", "neg", "to")
     modelled = all(in_model(o) for o in case["ops"])
-    if modelled and not impl_err and any(o["op"] in ("pow", "rdiv") for o in case["ops"]) and \
-            not np.all(np.isfinite(np.asarray(C.materialize(cur.data), dtype=float))):
+    if modelled and nonfinite:
         modelled = False
     if modelled and not fails:
         ops = []
